@@ -9,6 +9,14 @@ import (
 	"verif/ev"
 )
 
+// bigBatchSizes are the sizes of the large batches of C04 and C15.
+func bigBatchSizes(tier string) []int {
+	if tier == "thorough" {
+		return []int{200, 300, 600, 1100}
+	}
+	return []int{200, 300}
+}
+
 func c15Scenarios(tier string) (rulesSc, lockSc []CScenario) {
 	// Ordered selections of >= 2 keys from {k0,k1,k2}.
 	lists := [][]int{{0, 1}, {1, 0}, {0, 2}, {2, 0}, {1, 2}, {2, 1}, {0, 1, 2}, {0, 2, 1}, {1, 0, 2}, {1, 2, 0}, {2, 0, 1}, {2, 1, 0}}
@@ -82,14 +90,18 @@ func c15Scenarios(tier string) (rulesSc, lockSc []CScenario) {
 		lockSc = append(lockSc, pre, ext)
 		rulesSc = append(rulesSc, pre, ext)
 	}
-	// A batch of 200 distinct keys (alone it must complete; any fixed-size per-key structure is overrun), and the same
-	// against requests on keys from its middle and end.
-	big := []CScenario{
-		{Name: "atts[200 keys]", Bound: 1, Threads: [][]CReq{{attsN(keyRange(0, 200), 0, 1)}}},
-		{Name: "atts[200 keys]||att(100);atts[199 0]", Bound: 1, Threads: [][]CReq{{attsN(keyRange(0, 200), 0, 1)}, {att1(100, 1, 2), attsN([]int{199, 0}, 2, 3)}}},
+	// Batches of several hundred distinct keys (alone they must complete; any fixed-size per-key structure or "large
+	// batch" treatment is passed), and the same against requests on keys from their start, middle and end.
+	var big []CScenario
+	for _, n := range bigBatchSizes(tier) {
+		big = append(big,
+			CScenario{Name: fmt.Sprintf("atts[%d keys]", n), Bound: 1, Threads: [][]CReq{{attsN(keyRange(0, n), 0, 1)}}},
+			CScenario{Name: fmt.Sprintf("atts[%d keys]||att(%d);atts[%d 0]", n, n/2, n-1), Bound: 1, Threads: [][]CReq{{attsN(keyRange(0, n), 0, 1)}, {att1(n/2, 1, 2), attsN([]int{n - 1, 0}, 2, 3)}}},
+			CScenario{Name: fmt.Sprintf("atts[%d keys]||att(1)", n), Bound: 1, Threads: [][]CReq{{attsN(keyRange(0, n), 0, 1)}, {att1(1, 1, 2)}}},
+		)
 	}
 	lockSc = append(lockSc, big...)
-	rulesSc = append(rulesSc, big[1])
+	rulesSc = append(rulesSc, big[1]) // with the real rules and store: the smallest size only (the locks are what matters)
 	rulesSc = append(rulesSc,
 		CScenario{Name: "atts[0 1]||atts[1 0]||att(1)", Threads: [][]CReq{{attsN([]int{0, 1}, 0, 1)}, {attsN([]int{1, 0}, 1, 2)}, {att1(1, 2, 3)}}},
 		CScenario{Name: "atts[0 1 2]||prop(2)||att(0)", Threads: [][]CReq{{attsN([]int{0, 1, 2}, 0, 1)}, {prop1(2, 5)}, {att1(0, 1, 2)}}},
